@@ -200,12 +200,19 @@ def run(ctx, rounds=None):
     env = {"VERIF_TRACE": trace}
     if rounds:
         env["OPTRACE_ROUNDS"] = rounds
-    dr = ctx.go_test("c05_optrace", run="TestDriver", env=env, timeout=1800)
+    # the root package's cluster tests as trace sources: 3 fast ones (quick) / the pin, recover, replication,
+    # peer-removal, rebalance and add tests under crdt and raft (thorough)
+    env["OPTRACE_ROOT"] = os.environ.get("OPTRACE_ROOT", ctx.tier)
+    dr = ctx.go_test("c05_optrace", run="TestDriver", env=env, timeout=1800 if ctx.quick() else 5400)
     if not os.path.exists(trace) or os.path.getsize(trace) == 0:
         raise vcheck.Infra("optrace: no trace recorded")
     traces = read_traces(trace)
-    ctx.log("optrace: %d traces, %d lines (repository tests: %s traces; driver: %s traces)" % (
-        len(traces), sum(len(t) for t in traces), dr.extra.get("optrace_repo_traces"), dr.extra.get("optrace_driver_traces")))
+    ctx.log("optrace: %d traces, %d lines (tracker package tests: %s traces; root package cluster tests: %s traces from %s "
+            "processes; driver: %s traces)" % (len(traces), sum(len(t) for t in traces), dr.extra.get("optrace_repo_traces"),
+                                              dr.extra.get("optrace_root_traces"), dr.extra.get("optrace_root_processes"),
+                                              dr.extra.get("optrace_driver_traces")))
+    for n in (dr.extra.get("optrace_root_notes") or [])[:8]:
+        ctx.log("optrace: note (not a verdict): %s" % str(n)[:300])
     if dr.extra.get("optrace_repo_tests_failed"):
         ctx.log("optrace: note: repository tests failed (their executions are validated all the same): %s" %
                 dr.extra["optrace_repo_tests_failed"][:3])
